@@ -2,6 +2,7 @@ import RosuModel.Lemmas.CurveSafe
 import RosuModel.Lemmas.CurveCount
 import RosuModel.Lemmas.CurveBezier
 import RosuModel.Lemmas.CurveArc
+import RosuModel.Lemmas.CurveBudget
 
 /-!
 # C05 (slider path mathematics) — no panic, termination and vertex bounds of curve generation
@@ -153,6 +154,27 @@ theorem bezier_decoder_limit_exact (pts path : Array (Pos K)) (b : Bez K)
     ∃ path' b', approximateBezier (fieldArith T) fuel path pts b = .ok (path', b') ∧
       path'.size ≤ path.size + 2048 * (pts.size - 1) + 1 :=
   approximateBezier_decoder_limit T pts path b hp hb hcoord fuel hfuel
+
+/-- **One segment's budget** (exact arithmetic, decoder's coordinate limit, fuel `≥ 4095`): a segment
+of `n ≥ 2` control points adds at most `2048·(n−1)+1` vertices whatever its type (linear `n`, catmull
+`≤ 100·(n−1)`, circular arc `< 1000`, bezier / b-spline / the arc's fallback `≤ 2048·(n−1)+1`). -/
+theorem segment_vertex_budget (fuel : Nat) (hfuel : 4095 ≤ fuel) (isOsu : Bool)
+    (st st' : PathSt K K) (sub : Array (Pos K)) (kind : Spline) (h2 : 2 ≤ sub.size)
+    (hb : BezWF st.bez) (hcoord : ∀ v ∈ sub.toList, |v.x| ≤ 131072 ∧ |v.y| ≤ 131072)
+    (h : calculateSubpath (fieldArith T) fuel isOsu st sub kind = .ok st') :
+    st'.path.size ≤ st.path.size + 2048 * (sub.size - 1) + 1 ∧ BezWF st'.bez :=
+  calculateSubpath_budget T fuel hfuel isOsu st st' sub kind h2 hb hcoord h
+
+/-- **The memory / time clause for curve generation**: in exact arithmetic, with every coordinate
+within the decoder's limit, `calculate_path` on `N ≥ 1` control points — any types at any positions —
+produces at most `2049·N + 1` vertices (segments share their end points, each contributes at most
+`2048·(n_seg − 1) + 1`). -/
+theorem path_vertex_budget (fuel : Nat) (hfuel : 4095 ≤ fuel) (isOsu : Bool) (pts : Array (CP K))
+    (st st' : PathSt K K) (hb : BezWF st.bez)
+    (hcoord : ∀ p ∈ pts.toList, |p.pos.x| ≤ 131072 ∧ |p.pos.y| ≤ 131072) (hne : 0 < pts.size)
+    (h : calculatePath (fieldArith T) fuel isOsu pts st = .ok st') :
+    st'.path.size ≤ 2049 * pts.size + 1 :=
+  calculatePath_budget T fuel hfuel isOsu pts st st' hb hcoord hne h
 
 /-- The `while theta_end < theta_start { theta_end += 2π }` loop of `circular_arc_properties` runs
 at most once when `atan2` answers in `[−π, π]`. -/
